@@ -92,6 +92,10 @@ fn parse_cycle(mut arguments: TagTokenIter<'_>, _options: &Language) -> Result<C
         }
     }
 
+    if values.is_empty() {
+        return arguments.raise_error("Value expected").into_err();
+    }
+
     if name.is_empty() {
         name = itertools::join(values.iter(), "-");
     }
